@@ -158,6 +158,15 @@ class CacheOracle:
     def tidy(self, K): return len(set(e["iss"] for e in K)) == len(K) and all(self.current(e) for e in K)
     def literally_revoked(self, K, c):
         return any(e["iss"] == c["iss"] and e["auth"] and c["serial"] in e["serials"] for e in K)
+    def literal_exception(self, K, c):
+        """the certificate is listed in an authenticated loaded CRL of its issuer name that the cache rule does not apply:
+        'shadowed' - that CRL is not the first one cached under the name;  'stale' - it is the first one but past nextUpdate"""
+        first = self.first(K, c)
+        for e in K:
+            if e["iss"] == c["iss"] and e["auth"] and c["serial"] in e["serials"]:
+                if e is not first: return "shadowed"
+                if not self.current(e): return "stale"
+        return None
     @staticmethod
     def encoding_matters(K, c):
         """some entry names the same NUMBER as the certificate's serial with other octets (non-DER encodings involved)"""
@@ -244,7 +253,10 @@ def meta_from_rv_line(line):
 
 class DerOracle:
     """the property's clause read off the DER: a certificate of the presented path is revoked when an authenticated
-    CRL the application loaded under its issuer's name lists its serial number (INTEGER value)"""
+    CRL the application loaded under its issuer's name lists its serial number (INTEGER value).  'revoked' = the CRL
+    that does so is the one the cache consults (first under the name, not stale); 'exception' = it is one the cache
+    passes over (open findings C03-crl-shadowed / C03-crl-stale).  Only the first CRL of a name is ever offered to the
+    chain parent for authentication on the fly; the others count when the application authenticated them."""
     NOW = 1592222400          # 2020-06-15 12:00:00 UTC, the pinned calendar
     @staticmethod
     def auth_by(crl, cert):
@@ -260,18 +272,22 @@ class DerOracle:
                 for i, x in enumerate(loaded):
                     if x["crl"].issuer == c.issuer: del loaded[i]; break
             loaded.append(e)
+        def is_stale(e): return e["crl"].next_update is not None and e["crl"].next_update + 86400 < self.NOW
         names = [e["crl"].issuer for e in loaded]
-        stale = [e for e in loaded if e["crl"].next_update is not None and e["crl"].next_update + 86400 < self.NOW]
-        tidy = len(set(names)) == len(names) and not stale
-        revoked, nonminimal, shapes = False, False, []
+        tidy = len(set(names)) == len(names) and not any(is_stale(e) for e in loaded)
+        revoked, exception, nonminimal, shapes = False, None, False, []
         for i, c in enumerate(chain):
             parent = chain[i + 1] if i + 1 < len(chain) else None
+            first = next((e for e in loaded if e["crl"].issuer == c.issuer), None)
             for e in loaded:
                 if e["crl"].issuer != c.issuer: continue
-                authenticated = e["explicit"] or (parent is not None and self.auth_by(e["crl"], parent))
+                # (a stale first CRL is reported as expired before anybody is asked to authenticate it)
+                authenticated = e["explicit"] or (e is first and not is_stale(e) and parent is not None and self.auth_by(e["crl"], parent))
                 for s in e["crl"].serials:
                     if s == c.serial:
-                        if authenticated: revoked = True; shapes.append(shape(s))
+                        if not authenticated: continue
+                        if e is first and not is_stale(e): revoked = True; shapes.append(shape(s))       # the cache rule applies it
+                        elif exception is None: exception = "shadowed" if e is not first else "stale"      # the literal clause only
                     elif (s or c.serial) and int_value(s) == int_value(c.serial):
                         nonminimal = True
-        return dict(revoked=revoked, tidy=tidy, nonminimal=nonminimal, shapes=shapes)
+        return dict(revoked=revoked, exception=exception, tidy=tidy, nonminimal=nonminimal, shapes=shapes)
